@@ -414,8 +414,7 @@ impl Oplog {
             .expect("Attempted converting to a 32 bit usize on below 32 bit system");
 
         // NB: In the Javascript version IIUC zero length is caught only with a mismatch
-        // of checksums, which is silently interpreted to only mean "no value". That doesn't sound good:
-        // better to throw an error on mismatch and let the caller at least log the problem.
+        // of checksums, which is silently interpreted to only mean "no value".
         if len == 0 || data_buff.len() < len {
             return Ok(None);
         }
@@ -426,9 +425,10 @@ impl Oplog {
         let to_hash = &buffer[CRC_SIZE..LEADER_SIZE + len];
         let calculated_checksum = crc32fast::hash(to_hash);
         if calculated_checksum != stored_checksum {
-            return Err(HypercoreError::InvalidChecksum {
-                context: format!("Calculated signature [{calculated_checksum}] does not match oplog signature [{stored_checksum}]"),
-            });
+            // A header or entry whose checksum does not match was not written completely (the
+            // process died during the write). Like the Javascript version, treat it as absent:
+            // the other header slot is used, and the log ends before a half-written entry.
+            return Ok(None);
         };
         Ok(Some(ValidateLeaderOutcome {
             header_bit,
